@@ -67,11 +67,17 @@ func (mapVacuum *MapVacuum[K, V]) VacuumKey(keyToVacuum K) {
 
 func (mapVacuum *MapVacuum[K, V]) vacuumInBackground() {
 	go func() {
-		for mapVacuum.active {
+		for mapVacuum.isActive() {
 			mapVacuum.vacuum()
 			mapVacuum.clock.Sleep(mapVacuum.tick)
 		}
 	}()
+}
+
+func (mapVacuum *MapVacuum[K, V]) isActive() bool {
+	mapVacuum.entriesMutex.RLock()
+	defer mapVacuum.entriesMutex.RUnlock()
+	return mapVacuum.active
 }
 
 func (mapVacuum *MapVacuum[K, V]) vacuum() {
@@ -86,7 +92,7 @@ func (mapVacuum *MapVacuum[K, V]) vacuum() {
 	deleteUntil := 0
 	now := mapVacuum.clock.Now()
 	mapVacuum.mapMutex.Lock()
-	for _, entry := range mapVacuum.entries {
+	for _, entry := range mapVacuumEntries {
 		if entry.vacuumAt.Before(now) {
 			delete(mapVacuum.mapToVacuum, entry.keyToVacuum)
 			deleteUntil++
